@@ -351,6 +351,15 @@ def run(ctx):
                     ctx.note(case, deep, ["site:" + kind.split(":")[0], "entry:" + entry, "allow_custom:%s" % allow], fp=fp)
                     ctx.handle(case, fails)
 
+    ctx.collect_only = True
+    for ext_key in ("extension-definition--" + UUID, "extension-definition--zzz", "x-some-ext"):
+        for ext_type in (None, "", "foo", "property-extension", "toplevel-property-extension", "new-sdo", "new-sco", "new-sro", "new-", "sdo"):
+            for entry in ("parse", "parse-text", "parse-version", "memory-store"):
+                case = {"unregistered": True, "ext_key": ext_key, "ext_type": ext_type, "entry": entry}
+                ctx.note(case, True, ["unregistered-type", "entry:" + entry], fp=core.fingerprint([ext_key, ext_type, entry]))
+                ctx.handle(case, check_unregistered(case))
+    ctx.collect_only = False
+
     for ver_t in types:
         @st.composite
         def strat(draw, ver_t=ver_t):
@@ -363,5 +372,36 @@ def run(ctx):
         core.run_given(ctx, strat(), body, per_type, label="c04-%s-%s" % ver_t, rounds=3)
 
 
+def check_unregistered(case):
+    """A document of a never-registered type.  STIX 2.1 lets an extension definition introduce a new object type (extension_type
+    new-sdo / new-sco / new-sro): only then may a strict parse let the document through (as a dictionary); with any other or no
+    extension_type the type is simply unknown, i.e. custom."""
+    import stix2
+    doc = {"type": "x-never-registered", "spec_version": "2.1", "id": "x-never-registered--" + UUID, "created": "2020-01-01T00:00:00.000Z",
+           "modified": "2020-01-01T00:00:00.000Z", "name": "n"}
+    body = {"rank": 1}
+    if case["ext_type"] is not None:
+        body["extension_type"] = case["ext_type"]
+    doc["extensions"] = {case["ext_key"]: body}
+    entry = case["entry"]
+    if entry == "parse":
+        res, exc = core.guarded(stix2.parse, doc, allow_custom=False)
+    elif entry == "parse-text":
+        res, exc = core.guarded(stix2.parse, json.dumps(doc), allow_custom=False)
+    elif entry == "parse-version":
+        res, exc = core.guarded(stix2.parse, doc, allow_custom=False, version="2.1")
+    else:
+        store = stix2.MemoryStore(allow_custom=False)
+        _, exc = core.guarded(store.add, doc)
+        res = None if exc is not None else (store.query() or [None])[0]
+    new_type = case["ext_type"] in ("new-sdo", "new-sco", "new-sro") and case["ext_key"].startswith("extension-definition--")
+    if exc is None and not new_type:
+        return [("custom-admitted-strict:unregistered-type-without-new-object-extension", "%s(allow_custom=False) let an object of a never-registered type through (%s) "
+                 "although its extension %r has extension_type %r" % (entry, type(res).__name__, case["ext_key"], case["ext_type"]))]
+    return []
+
+
 def replay(case):
+    if case.get("unregistered"):
+        return check_unregistered(case)
     return check_case(case) or []
